@@ -22,7 +22,9 @@ class Observer(MuxObserver):
 
 
 def configs(tier):
-    return layouts(tier)
+    ls = layouts(tier)
+    twice = [dict(l, elab_twice=True) for l in ls if l["ov"] == 0 and len(l["regs"]) >= 2][::4]
+    return ls + twice
 
 
 def run_config(cfg, tier, seed):
